@@ -421,7 +421,7 @@ def explore(body, *, reduce=True, focus=None, memo=None, merge=False, max_exec=2
     stack = [[]]
     outcomes = {}
     seen = set()
-    nexec = transitions = 0
+    nexec = transitions = nondefault = 0
     capped = False
     while stack:
         if nexec >= max_exec:
@@ -443,6 +443,7 @@ def explore(body, *, reduce=True, focus=None, memo=None, merge=False, max_exec=2
         nexec += 1
         tr = ex["trace"]
         transitions += len(tr)
+        nondefault += any(c != 0 for _, _, c, _ in tr)
         dig = observe(ex) if observe else repr((ex["verdict"], ex["value"], repr(ex["exc"])))
         o = outcomes.setdefault(dig, dict(count=0, trace=[c for _, _, c, _ in tr], example=ex))
         o["count"] += 1
@@ -455,4 +456,4 @@ def explore(body, *, reduce=True, focus=None, memo=None, merge=False, max_exec=2
             for alt in range(1, n):
                 stack.append([cc for _, _, cc, _ in tr[:i]] + [alt])
     return dict(executions=nexec, outcomes=outcomes, capped=capped, states=max(len(seen), nexec),
-                transitions=transitions)
+                transitions=transitions, nondefault=nondefault)
